@@ -34,7 +34,7 @@ type C01Plan struct {
 
 func genIngestCfg(r *Rand) IngestCfg {
 	return IngestCfg{
-		Delim:     Pick(r, []string{",", ",", ",", "|", ";", "\t"}),
+		Delim:     Pick(r, []string{",", ",", ",", "|", ";", "\t", "§", "、"}),
 		RunSize:   Pick(r, []uint64{0, 0, 1, 64, 512, 4096}),
 		Workers:   Pick(r, []int{1, 3, 4, 5, 6, 8, 16}),
 		SchedSeed: r.Uint64(),
@@ -51,6 +51,9 @@ func delimRune(s string) (rune, error) {
 		return ';', nil
 	case "\t":
 		return '\t', nil
+	}
+	if rs := []rune(s); len(rs) == 1 && rs[0] >= 0x80 && rs[0] != 0xFFFD {
+		return rs[0], nil
 	}
 	return 0, fmt.Errorf("bad delimiter %q", s)
 }
